@@ -22,6 +22,7 @@ class PathCtx:
         self.baton = Baton()
         self.dist_version = '0.2.5'
         self.notes = []
+        self.last_store = None
 
 
 CTX = None
@@ -817,6 +818,9 @@ def install_writer_shims(mods, fs):
     cu.Thread = ShimThread
     cu.Queue = ShimQueue
     cu.hashlib = ShimHashlib
+    for _m in mods.values():
+        if hasattr(_m, 'hashlib'):
+            _m.hashlib = ShimHashlib
     cu.pkg_resources = ShimPkgResources
     cu.open = fs.open
     cv.open = fs.open
